@@ -118,7 +118,17 @@ PROBES = [
     {"sel": {"f|re|i": "a", "f|re|ignorecase": "b"}},               # alias keys collide, scalars: merged under |all (same meaning)
 ]
 
+EXTRACT = {"type": "extract_fields", "regex": "(?P<t>[A-Z][a-z]+):(?P<v>[0-9]+)", "field_prefix": "reg", "preserve_unmatched": True}
 T2 = [
+    # transformations outside the C12 list that build new items from old ones (values kept, split, re-typed)
+    ({"sel": {"reg|base64": ["foo", "bar"]}}, EXTRACT),
+    ({"sel": {"reg|wide": ["ab", "cd"], "g": 1}}, EXTRACT),
+    ({"sel": {"reg": ["Dword:1", "nomatch", "Qword:02"]}}, EXTRACT),
+    ({"sel": {"reg|contains": ["Dword:1", "x"]}}, dict(EXTRACT, preserve_unmatched=False)),
+    ({"sel": {"reg|base64": "foo"}}, EXTRACT),
+    ({"sel": {"Hashes": ["MD5=0123456789abcdef0123456789abcdef", "SHA1=0123456789abcdef0123456789abcdef01234567"]}},
+     {"type": "hashes_fields", "valid_hash_algos": ["MD5", "SHA1"], "field_prefix": "File"}),
+    ({"sel": {"Hashes|contains": "MD5=0123456789abcdef0123456789abcdef"}}, {"type": "hashes_fields", "valid_hash_algos": ["MD5", "SHA1"], "field_prefix": "File", "drop_algo_prefix": True}),
     ({"sel": {"f": "abc"}}, {"type": "regex"}),
     ({"sel": {"f": ["abc", "x*"]}}, {"type": "regex", "method": "ignore_case_flag"}),
     ({"sel": {"f": "a*c", "g|contains": "k"}}, {"type": "regex", "method": "plain"}),
